@@ -42,6 +42,8 @@ class Bodies:
         self.enum = pathx.Enum(interesting=interesting)
         self._b2_match = None
         self.ctx = ctx
+        global FACTS
+        FACTS = f
 
     def control_match(self, rule):
         if self._b2_match is None:
@@ -85,6 +87,40 @@ def _arg_desc(ev, i):
     n = ev[2]
     a = n["a"]
     return pathx.desc(a[i]) if i < len(a) else "?"
+
+
+FACTS = None
+_inlining = set()
+
+
+def _inline_helper(d, node):
+    """a private, synchronous, straight-line helper of the job module that is handed job state (`raise_end_flags(&mut on_end)`): its single path is
+    abstracted in place of the call, with the arguments standing in for its parameters. Anything else stays unmodelled."""
+    g = FACTS.find_fn(d) if FACTS is not None and d.startswith("watchexec_supervisor::job::") else None
+    th = getattr(g, "thir", None) if g is not None else None
+    if not th or g.kind != "fn" or getattr(g, "asyncness", False) or d in _inlining:
+        return None
+    params = []
+    for pr in th.get("params", []):
+        pat = pr.get("pat") or {}
+        if pat.get("k") != "bind" or "sub" in pat:
+            return None
+        params.append(pat["n"])
+    if len(params) != len(node["a"]):
+        return None
+    saved = pathx.SUBST
+    pathx.SUBST = dict(saved)
+    for pn, an in zip(params, node["a"]):
+        pathx.SUBST[pn] = {"k": "described", "d": pathx.desc(an)}
+    _inlining.add(d)
+    try:
+        ps = pathx.Enum(interesting=interesting).paths(thir.root(g))
+        if len(ps) != 1 or ps[0].out != "val":
+            return None
+        return abstract(ps[0])
+    finally:
+        _inlining.discard(d)
+        pathx.SUBST = saved
 
 
 def abstract(path):
@@ -143,6 +179,12 @@ def abstract(path):
             else:
                 args = " ".join(pathx.desc(a) for a in node["a"])
                 if any(re.search(r"\b%s\b" % t, args) for t in TRACKED):
+                    inl = _inline_helper(d, node)
+                    if inl is not None:
+                        out += inl[0]
+                        unm += inl[1]
+                        i += 1
+                        continue
                     unm.append("call %s(%s) at L%s" % (pathx.short(e[1]), args, node.get("l")))
                 out.append(("other-call", pathx.short(e[1])))
         elif k == "await":
